@@ -92,6 +92,10 @@ type St struct {
 type NSl []int
 type NB bool
 
+// K and KT are an untyped and a typed named constant (bound by deriveApply in some classes).
+const K = 3
+const KT NI = 4
+
 // Log is the call log of the instrumented functions of this package.
 var Log []string
 
